@@ -1790,4 +1790,55 @@ theorem block_token_fixed (c1 i : Nat) (t : Text) (h : startsWith ['/', '*'] t =
     rw [htok]
     exact fromText_single_block i (blockDoc t) _ (stripBy_stripped _ _) hx
 
+
+/-! ### newline termination of `format_trivia` for ALL lists (comma sentinels included) -/
+
+def GoInv (ts : List Trivia) (acc : Text) : Prop :=
+  acc = [] ∨ endsWithNL acc = true ∨ ∃ t rest, ts = t :: rest ∧ t ≠ .linebreak
+
+theorem formatTriviaGo_nl (i : Nat) : ∀ (ts : List Trivia) (acc : Text) (e : Bool), GoInv ts acc →
+    formatTriviaGo i ts acc e = [] ∨ endsWithNL (formatTriviaGo i ts acc e) = true
+  | [], acc, e, h => by
+    rw [formatTriviaGo]
+    rcases h with h | h | ⟨t, rest, h, _⟩
+    · exact Or.inl h
+    · exact Or.inr h
+    · cases h
+  | .emptyLine :: rest, acc, e, _ => by
+    rw [formatTriviaGo]
+    exact formatTriviaGo_nl i rest _ _ (Or.inr (Or.inl (endsWithNL_concat _ _)))
+  | .linebreak :: rest, acc, e, h => by
+    rw [formatTriviaGo]
+    apply formatTriviaGo_nl i rest
+    rcases h with h | h | ⟨t, r, he, hne⟩
+    · exact Or.inl h
+    · exact Or.inr (Or.inl h)
+    · cases he; exact absurd rfl hne
+  | .comment c :: rest, acc, e, _ => by
+    rw [formatTriviaGo]
+    exact formatTriviaGo_nl i rest _ _ (Or.inr (Or.inl (endsWithNL_concat _ _)))
+  | [.comma], acc, e, _ => by
+    rw [formatTriviaGo]
+    exact formatTriviaGo_nl i [] _ _ (Or.inr (Or.inl (endsWithNL_concat _ _)))
+  | .comma :: .comment c :: rest, acc, e, _ => by
+    rw [formatTriviaGo]
+    split
+    · exact formatTriviaGo_nl i (.comment c :: rest) _ _ (Or.inr (Or.inr ⟨_, _, rfl, by simp⟩))
+    · exact formatTriviaGo_nl i (.comment c :: rest) _ _ (Or.inr (Or.inr ⟨_, _, rfl, by simp⟩))
+  | .comma :: .linebreak :: rest, acc, e, _ => by
+    rw [formatTriviaGo]
+    exact formatTriviaGo_nl i (.linebreak :: rest) _ _ (Or.inr (Or.inl (endsWithNL_concat _ _)))
+  | .comma :: .emptyLine :: rest, acc, e, _ => by
+    rw [formatTriviaGo]
+    · exact formatTriviaGo_nl i (.emptyLine :: rest) _ _ (Or.inr (Or.inr ⟨_, _, rfl, by simp⟩))
+    all_goals simp
+  | .comma :: .comma :: rest, acc, e, _ => by
+    rw [formatTriviaGo]
+    · exact formatTriviaGo_nl i (.comma :: rest) _ _ (Or.inr (Or.inr ⟨_, _, rfl, by simp⟩))
+    all_goals simp
+
+theorem formatTrivia_nil_or_nl_all (ts : List Trivia) (i : Nat) :
+    formatTrivia ts i = [] ∨ endsWithNL (formatTrivia ts i) = true :=
+  formatTriviaGo_nl i ts [] true (Or.inl rfl)
+
 end Nima
